@@ -425,6 +425,12 @@ func (e *c07Env) c07OddNames(r *rand.Rand, id, text string) {
 		kind = "uncarriable"
 	}
 	if err != nil {
+		if kind == "odd-but-carriable" {
+			// non-empty, valid UTF-8, no Unicode space, no '+': a name the format carries, so a valid signer
+			ctx["err"] = err.Error()
+			c.Violation("sign-refuses-a-valid-signer-name", id, ctx)
+			return
+		}
 		c.Class("oddname:" + how + ":" + kind + ":sign-refused")
 		return
 	}
